@@ -110,6 +110,7 @@ def run_general(ctx, fields, what, n_fake, n_real, gen=None, rule="", names_mix=
             if it % 3 == 0:
                 twin_cases(eng, res, sc, rng, fields, what)
         tiny_cases(eng, res, fields, what, rng)
+        replace_spelling_cases(eng, res, fields, what)
         wide_cases(eng, res, fields, what, ctx["tier"] == "quick", rng)
         scale_cases(eng, res, fields, what, ctx["tier"] == "quick", rng)
     finally:
@@ -122,7 +123,7 @@ def run_general(ctx, fields, what, n_fake, n_real, gen=None, rule="", names_mix=
 
 # how the objects of a real repository are stored, cycled through by the real-git runs of every scan check
 STORAGE = [False, True, "partial", False, "bitmap", "GIT_ALTERNATE_OBJECT_DIRECTORIES", False, "bitmap+loose", "objects/info/alternates",
-           True, "GIT_OBJECT_DIRECTORY"]
+           True, "GIT_OBJECT_DIRECTORY", "info/grafts"]
 
 ENV_VARIANTS = [
     {"LC_ALL": None, "LANG": None, "LC_NUMERIC": None, "LC_CTYPE": None},            # no locale at all
@@ -173,6 +174,37 @@ def twin_cases(eng, res, sc, rng, fields, what):
                    (["--exclude", name_a.decode("latin1")], [(False, "prefix", name_a)])):
         w3 = [r["obj"] for r in SC.build_roots(sc2, o2, []) if r["walk"]]
         one_case(eng, res, sc2, a2, o2, [], sc2.enum_random(w3, rng), fields, what + ": twin references, the first one not selected")
+
+
+def replace_spelling_cases(eng, res, fields, what):
+    """ROOT arguments whose resolution reads objects (R~1, R^, R:, R^{tree}, R:dir, R:dir/sub), in a repository where the
+    objects on the way carry replace references: the stored objects are the ones named and measured."""
+    s = S.Scenario()
+    b1 = s.add({"kind": "blob", "data": b"one\n"})
+    b2 = s.add({"kind": "blob", "data": b"two" * 500})
+    b3 = s.add({"kind": "blob", "data": b"three" * 3000})
+    t_b = s.add({"kind": "tree", "entries": [(0o100644, b"f1", b1), (0o100644, b"f2", b2), (0o100644, b"f3", b3)]})
+    t_a = s.add({"kind": "tree", "entries": [(0o40000, b"b", t_b), (0o100644, b"g", b2)]})
+    t_other = s.add({"kind": "tree", "entries": [(0o100644, b"only", b1)]})
+    top_a = s.add({"kind": "tree", "entries": [(0o100644, b"README", b1)]})
+    top_b = s.add({"kind": "tree", "entries": [(0o100644, b"README", b1), (0o100644, b"x", b2)]})
+    top_c = s.add({"kind": "tree", "entries": [(0o100644, b"README", b1), (0o40000, b"a", t_a), (0o100644, b"x", b2)]})
+    c_a = s.add({"kind": "commit", "tree": top_a, "parents": [], "date": 1500000000})
+    c_b = s.add({"kind": "commit", "tree": top_b, "parents": [c_a], "date": 1500000100})
+    c_c = s.add({"kind": "commit", "tree": top_c, "parents": [c_b], "date": 1500000200})
+    c_fake = s.add({"kind": "commit", "tree": top_a, "parents": [c_a], "date": 1500000300, "msg": b"replacement of the tip\n"})
+    s.refs.append((b"refs/heads/main", c_c))
+    s.compute()
+    # the tip commit is replaced by one with another parent and tree; directory a by another tree
+    s.refs.append((b"refs/replace/" + s.oids[c_c].hex().encode(), c_fake))
+    s.refs.append((b"refs/replace/" + s.oids[t_a].hex().encode(), t_other))
+    s.compute()
+    n = 0
+    for sp, idx in (("main~1", c_b), ("main^", c_b), ("main:", top_c), ("main^{tree}", top_c), ("main:a", t_a), ("main:a/b", t_b),
+                    ("main^{}", c_c), ("main~2", c_a), ("main:a/b/f3", b3)):
+        one_case(eng, res, s, [], [], [(sp, idx)], None, fields, "%s: ROOT %s with replace references on the way" % (what, sp), real=True)
+        n += 1
+    res.coverage_extra["root_spelling_under_replace_cases"] = n
 
 
 def tiny_scenarios():
